@@ -150,6 +150,8 @@ def units(tier):
     us = []
     for name, g in gen.enzymes():
         us.append(("generic", name))
+    for name, g in gen.degenerate_enzymes():
+        us.append(("degenerate", name))
     cls = gen.kit_classes()
     for i in range(0, len(cls), 3):
         us.append(("kit", [c.__name__ for c in cls[i:i + 3]]))
@@ -268,6 +270,13 @@ def run_unit(unit, st, tier):
     kind, arg = unit
     if kind == "generic":
         unit_generic(st, arg)
+    elif kind == "degenerate":
+        M, V = gen.generic_classes(arg)
+        for k, near, w, s in gen.degenerate_records(arg):
+            cls = M if k == "module" else V
+            check_record(st, "generic", cls, s, range(len(s)), (">>", "fresh"),
+                         dict(family="generic", enz=arg, cls_kind=k, lens=None, seq=s, cls=cls.__name__, signature=None))
+        st.sample(dict(family="generic", enz=arg, cls_kind="module", rotation=1, construction="fresh", note="degenerate site"))
     elif kind == "kit":
         unit_kit(st, arg)
     else:
